@@ -1169,9 +1169,52 @@ func (e *termEnv) guardsOf(b *ssa.BasicBlock) []Guard {
 		if in0 == in1 {
 			continue
 		}
-		out = append(out, Guard{Cond: e.termOf(iff.Cond), Pos: in0, If: iff})
+		g := Guard{Cond: e.termOf(iff.Cond), Pos: in0, If: iff}
+		if nilFrameGuard(g) == 1 {
+			continue // "the frame parameter is not nil": always true (see framesNonNil), a defensive test adds no condition
+		}
+		out = append(out, g)
 	}
 	return out
+}
+
+// nilFrameGuard: 1 when the guard says a *cptvframe.Frame parameter is non-nil, -1 when it says it is nil, 0 otherwise.
+func nilFrameGuard(g Guard) int {
+	s := g.Cond.String()
+	if !strings.HasSuffix(s, ":cptvframe.Frame)") || strings.Count(s, "(") != 1 {
+		return 0
+	}
+	eq := false
+	switch {
+	case strings.HasPrefix(s, "eq(nil, param"):
+		eq = true
+	case strings.HasPrefix(s, "ne(nil, param"):
+	default:
+		return 0
+	}
+	if eq == g.Pos {
+		return -1
+	}
+	return 1
+}
+
+// inNilFrameBranch: the block runs only when a frame parameter is nil (never, see framesNonNil).
+func (e *termEnv) inNilFrameBranch(b *ssa.BasicBlock) bool {
+	for d := b.Idom(); d != nil; d = d.Idom() {
+		iff, ok := d.Instrs[len(d.Instrs)-1].(*ssa.If)
+		if !ok {
+			continue
+		}
+		in0 := (d.Succs[0] == b || d.Succs[0].Dominates(b)) && onlyEntryFrom(d.Succs[0], d)
+		in1 := (d.Succs[1] == b || d.Succs[1].Dominates(b)) && onlyEntryFrom(d.Succs[1], d)
+		if in0 == in1 {
+			continue
+		}
+		if nilFrameGuard(Guard{Cond: e.termOf(iff.Cond), Pos: in0}) == -1 {
+			return true
+		}
+	}
+	return false
 }
 
 func guardStrings(gs []Guard) []string {
@@ -1190,6 +1233,42 @@ func hasGuard(gs []Guard, want string) bool {
 		}
 	}
 	return false
+}
+
+// framesNonNil drops the paths taken only when a frame parameter is nil and removes the opposite test from the others:
+// the frames handed to the detector and the processor are slots of their rings (never nil; a nil frame panics in the
+// pixel loops of the unguarded code as well), so a defensive "if frame == nil { return }" adds no behaviour.
+func framesNonNil(paths []*Path) []*Path {
+	isNilFrameTest := func(c *Term) (eq bool, ok bool) {
+		s := c.String()
+		if !strings.HasSuffix(s, ":cptvframe.Frame)") || strings.Count(s, "(") != 1 {
+			return false, false
+		}
+		switch {
+		case strings.HasPrefix(s, "eq(nil, param"):
+			return true, true
+		case strings.HasPrefix(s, "ne(nil, param"):
+			return false, true
+		}
+		return false, false
+	}
+	var out []*Path
+next:
+	for _, p := range paths {
+		var cs []Guard
+		for _, g := range p.Conds {
+			if eq, ok := isNilFrameTest(g.Cond); ok {
+				if eq == g.Pos {
+					continue next // the path of a nil frame
+				}
+				continue
+			}
+			cs = append(cs, g)
+		}
+		p.Conds = cs
+		out = append(out, p)
+	}
+	return out
 }
 
 // ---- path enumeration for loop-free functions ------------------------------------
